@@ -24,6 +24,9 @@ pub mod parse;
 
 pub mod io;
 
+#[cfg(mamba_verif)]
+pub mod verif_hooks;
+
 const TARGET: &str = "target";
 const SOURCE: &str = "src";
 
@@ -106,6 +109,8 @@ pub fn transpile_dir(
     let mut sources = vec![];
     for source_path in in_absolute_paths.clone() {
         let source = io::read_source(&source_path).map_err(|error| vec![error])?;
+        #[cfg(mamba_verif)]
+        verif_hooks::emit(verif_hooks::Event::Read { path: source_path.display().to_string() });
         sources.push(source);
     }
 
@@ -120,6 +125,8 @@ pub fn transpile_dir(
     for (source, out_path) in mamba_source.iter().zip(out_absolute_paths) {
         let out_path = out_path.with_extension("py");
         io::write_source(source, &out_path).map_err(|error| vec![error])?;
+        #[cfg(mamba_verif)]
+        verif_hooks::emit(verif_hooks::Event::Write { path: out_path.display().to_string() });
     }
 
     Ok(out_dir)
@@ -159,6 +166,8 @@ pub fn mamba_to_python(
         .map(|(src, dir)| (src.clone(), dir.clone().map(strip_prefix)))
         .collect();
 
+    #[cfg(mamba_verif)]
+    verif_hooks::emit(verif_hooks::Event::StageBegin { stage: "parse", files: source.len() });
     let (asts, parse_errs): (Vec<_>, Vec<_>) = source
         .iter()
         .map(|(src, path)| {
@@ -168,6 +177,8 @@ pub fn mamba_to_python(
         .partition(Result::is_ok);
 
     let parse_errs: Vec<_> = parse_errs.into_iter().map(Result::unwrap_err).collect();
+    #[cfg(mamba_verif)]
+    verif_hooks::emit(verif_hooks::Event::StageEnd { stage: "parse", n_ok: asts.len(), n_err: parse_errs.len() });
     if !parse_errs.is_empty() {
         return Err(parse_errs.iter().map(|err| format!("{err}")).collect());
     }
@@ -175,8 +186,14 @@ pub fn mamba_to_python(
     let asts: Vec<AST> = asts.into_iter().map(Result::unwrap).collect();
     trace!("Parsed {} files", asts.len());
 
+    #[cfg(mamba_verif)]
+    verif_hooks::emit(verif_hooks::Event::StageBegin { stage: "context", files: asts.len() });
     let ctx = Context::try_from(asts.as_ref())
         .map_err(|errs| errs.iter().map(|e| format!("{e}")).collect::<Vec<String>>())?;
+    #[cfg(mamba_verif)]
+    verif_hooks::emit(verif_hooks::Event::StageEnd { stage: "context", n_ok: asts.len(), n_err: 0 });
+    #[cfg(mamba_verif)]
+    verif_hooks::emit(verif_hooks::Event::StageBegin { stage: "check", files: asts.len() });
     let (typed_ast, type_errs): (Vec<_>, Vec<_>) = asts
         .iter()
         .zip(&source)
@@ -190,6 +207,8 @@ pub fn mamba_to_python(
         .partition(Result::is_ok);
 
     let type_errs: Vec<Vec<TypeErr>> = type_errs.into_iter().map(Result::unwrap_err).collect();
+    #[cfg(mamba_verif)]
+    verif_hooks::emit(verif_hooks::Event::StageEnd { stage: "check", n_ok: typed_ast.len(), n_err: type_errs.len() });
     if !type_errs.is_empty() {
         return Err(type_errs
             .iter()
@@ -204,6 +223,8 @@ pub fn mamba_to_python(
 
     trace!("Checked {} files", typed_ast.len());
 
+    #[cfg(mamba_verif)]
+    verif_hooks::emit(verif_hooks::Event::StageBegin { stage: "generate", files: typed_ast.len() });
     let gen_args = GenArguments::from(pipeline_args);
     let (py_sources, gen_errs): (Vec<_>, Vec<_>) = typed_ast
         .iter()
@@ -216,6 +237,8 @@ pub fn mamba_to_python(
         .partition(Result::is_ok);
 
     let gen_errs: Vec<_> = gen_errs.into_iter().map(Result::unwrap_err).collect();
+    #[cfg(mamba_verif)]
+    verif_hooks::emit(verif_hooks::Event::StageEnd { stage: "generate", n_ok: py_sources.len(), n_err: gen_errs.len() });
     if !gen_errs.is_empty() {
         return Err(gen_errs.iter().map(|err| format!("{err}")).collect());
     }
